@@ -661,6 +661,7 @@ func (in *Interp) assumeOnce(c *smt.Term) {
 func (in *Interp) stringOfBytes(s *SliceV) *smt.Term {
 	if s.SB != nil {
 		sb := s.SB
+		in.notePooledView(sb)
 		if sb.Buf.Str != nil {
 			if sb.Off.Const && sb.Off.U == 0 && sb.Len.S == BLen(sb.Buf.Str).S {
 				return sb.Buf.Str
